@@ -51,21 +51,30 @@ func (tmgc *TCPMuxGroupCtl) Listen(
 	multiplexer, group, groupKey string,
 	routeConfig vhost.RouteConfig,
 ) (l net.Listener, err error) {
+	// Hold the controller lock until the group has been joined, otherwise the last
+	// member may leave (closing and removing the group) between lookup and join.
 	tmgc.mu.Lock()
+	defer tmgc.mu.Unlock()
 	tcpMuxGroup, ok := tmgc.groups[group]
 	if !ok {
 		tcpMuxGroup = NewTCPMuxGroup(tmgc)
 		tmgc.groups[group] = tcpMuxGroup
 	}
-	tmgc.mu.Unlock()
 
 	switch v1.TCPMultiplexerType(multiplexer) {
 	case v1.TCPMultiplexerHTTPConnect:
-		return tcpMuxGroup.HTTPConnectListen(ctx, group, groupKey, routeConfig)
+		l, err = tcpMuxGroup.HTTPConnectListen(ctx, group, groupKey, routeConfig)
 	default:
 		err = fmt.Errorf("unknown multiplexer [%s]", multiplexer)
-		return
 	}
+	if err != nil {
+		l = nil
+		if !ok {
+			// don't keep a group without members
+			delete(tmgc.groups, group)
+		}
+	}
+	return
 }
 
 // RemoveGroup remove TCPMuxGroup from controller
@@ -169,6 +178,8 @@ func (tmg *TCPMuxGroup) Accept() <-chan net.Conn {
 
 // CloseListener remove the TCPMuxGroupListener from the TCPMuxGroup
 func (tmg *TCPMuxGroup) CloseListener(ln *TCPMuxGroupListener) {
+	tmg.ctl.mu.Lock()
+	defer tmg.ctl.mu.Unlock()
 	tmg.mu.Lock()
 	defer tmg.mu.Unlock()
 	for i, tmpLn := range tmg.lns {
@@ -180,7 +191,7 @@ func (tmg *TCPMuxGroup) CloseListener(ln *TCPMuxGroupListener) {
 	if len(tmg.lns) == 0 {
 		close(tmg.acceptCh)
 		tmg.tcpMuxLn.Close()
-		tmg.ctl.RemoveGroup(tmg.group)
+		delete(tmg.ctl.groups, tmg.group)
 	}
 }
 
